@@ -36,6 +36,7 @@ DECIDED = [
     "R-C01-TRANSFER (round 6 + sweep): RabbitMQ contract tables - delivery decision table (eight rows of guard atoms -> bounce | dead-letter | remember tag and hand out, on every path), lifecycle (queue of the category, manual ack, prefetch windows, consumer tag, flags, cancel, drain), details (headers guard, id kept, key fields, priority default, known tags rejected, fast-path guard, pending helper tasks cancelled, cancellation re-raised, re-subscription), enqueue contract (TTL iff due time ahead, delayed queue iff TTL, mandatory, confirmation, channel accessor, dead-letter topology); the Redis fetch hands out only names read in this call and keeps nothing; finish() rejects exactly its own buffered deliveries",
     "R-C01-AWAITED: no asynchronous operation is created and dropped in the anchored files (every property has this rule under its own id)",
     "R-C01-TRANSFER / R-C01-SOURCE (Redis sweep rules): key constructors by partial evaluation (qnc / mnc templates per flag row, defaults False); claim flow (no name -> nothing claimed; LREM for lists / ZREM for the delayed set, marked, returned after the transaction; claimed -> data read; complete data only); lifecycle (poll task kept, pause lock protocol, gate, hand-over); defaults only for what is missing (given parameters stored as given; reject uses stored parameters / target; maintenance data guard)",
+    "R-C01-SOURCE (sweep stage two): in-memory reject decision table",
 ]
 NOT_DECIDED = ["the whole-history statement under concurrent clients of Redis/RabbitMQ (partly C14)", "server-side behaviour", "'well-behaved client' preconditions"]
 ASSUMPTIONS = ["redis-py pipeline(transaction=True) buffers commands and sends them in one MULTI/EXEC on execute()", "asyncio: code between two awaits is atomic"]
@@ -45,6 +46,9 @@ def run(ctx: Ctx) -> None:
     from .shared import every_operation_awaited
 
     every_operation_awaited(ctx, "R-C01-AWAITED")  # in the files this property is anchored in, no asynchronous operation is created and dropped
+    from .brokers import inmem_reject_table
+
+    inmem_reject_table(ctx, "R-C01-SOURCE")
     from .brokers import redis_lifecycle
 
     redis_lifecycle(ctx, "R-C01-TRANSFER")  # Redis consumer: poll task, pause lock protocol, gate, hand-over
